@@ -52,6 +52,15 @@ def view_catalogue(shape, rng, small=True, with_arrays=True, max_views=None, ell
             views.append((0, np.array([0, shape[1] - 1])))
         if d >= 3:
             views.append((np.array([0, shape[0] - 1]), slice(None), np.array([shape[2] - 1, 0])))
+        # index arrays that are not C-ordered in memory (Fortran order, transposes): the result is defined by the indices, not the layout
+        base = [np.array([[0, n - 1, 1 % n], [n // 2, 0, n - 1]]) for n in shape]
+        views.append(tuple(np.asfortranarray(b) for b in base))
+        views.append(tuple(np.array([[0, n // 2], [n - 1, 0], [1 % n, n - 1]]).T for n in shape))
+        # negative entries in index arrays count from the end; index arrays of the same rank as the data
+        views.append(tuple(np.array([-1, 0, -n]) for n in shape))
+        views.append(tuple(np.array([0, n - 1, -1]).reshape((1,) * (d - 1) + (3,)) for n in shape))
+        if d >= 2:
+            views.append(tuple(np.array([rng.randrange(n) for _ in range(2 ** d)]).reshape((2,) * d) for n in shape))   # varies along every result axis
         mask = np.zeros(shape, dtype=bool)
         mask.flat[::2] = True
         views.append(mask)
